@@ -24,7 +24,7 @@ def u(n):
     return ast.unparse(n)
 
 
-COQ_TY = {"Z": "Z", "B": "bool", "Pos": "(Z * Z)", "VB": "list bool", "MB": "list (list bool)", "VPos": "list (Z * Z)", "VZ": "list Z",
+COQ_TY = {"VBcol": "list bool", "Z": "Z", "B": "bool", "Pos": "(Z * Z)", "VB": "list bool", "MB": "list (list bool)", "VPos": "list (Z * Z)", "VZ": "list Z",
           "MZ": "list (list Z)", "PB": "(bool * bool)", "VPB": "list (bool * bool)", "Ext": "unit", "Key": "unit"}
 
 PRELUDE = r'''(* element-wise operations on small fixed-rank arrays: a (2,) integer array is a pair, an (N, N) integer array a list of rows *)
@@ -138,6 +138,10 @@ class Tr:
                 return "(m_map (fun x_ : Z => x_ %s %s) %s)" % ("-" if isinstance(n.op, ast.Sub) else "+", b, a), "MZ"
             if isinstance(n.op, ast.Add) and ta == tb == "Pos" and S.get("position_add"):
                 return "(Position_add %s %s)" % (a, b), "Pos"
+            if isinstance(n.op, ast.Add) and ta == tb == "VPos":
+                return "(zip_with (fun (p_ q_ : Z * Z) => (fst p_ + fst q_, snd p_ + snd q_)) %s %s)" % (a, b), "VPos"
+            if isinstance(n.op, ast.Sub) and ta == tb == "Z" and False:
+                pass
             if isinstance(n.op, ast.Add) and ta == "Pos" and tb == "VPos":     # (2,) + (K, 2) broadcasts over the K rows
                 return "(map (fun m_ : Z * Z => (fst %s + fst m_, snd %s + snd m_)) %s)" % (a, a, b), "VPos"
             if isinstance(n.op, ast.BitAnd) and ta == tb == "PB":
@@ -157,6 +161,8 @@ class Tr:
                 sym = {ast.GtE: ">=?", ast.Gt: ">?", ast.LtE: "<=?", ast.Lt: "<?", ast.Eq: "=?"}.get(op)
                 if sym:
                     return "(%s %s %s)" % (a, sym, b), "B"
+                if op is ast.NotEq:
+                    return "(negb (%s =? %s))" % (a, b), "B"
             fsym = {ast.GtE: "Z.geb", ast.Gt: "Z.gtb", ast.LtE: "Z.leb", ast.Lt: "Z.ltb", ast.Eq: "Z.eqb"}.get(op)
             if ta == "Z" and tb == "Pos" and op in (ast.LtE, ast.Lt):     # k <= p  ==  p >= k
                 return "(pos_cmp %s %s %s)" % ("Z.geb" if op is ast.LtE else "Z.gtb", b, a), "PB"
@@ -179,6 +185,20 @@ class Tr:
                 i, ti = self.expr(n.slice)
                 if ti == "Z":
                     return "(jget false %s %s)" % (v, i), "B"
+            if t == "MB" and isinstance(n.slice, ast.Tuple) and len(n.slice.elts) == 2 and isinstance(n.slice.elts[0], ast.Call) \
+                    and u(n.slice.elts[0].func) == "jnp.arange" and len(n.slice.elts[0].args) == 1:
+                cnt_, tcnt = self.expr(n.slice.elts[0].args[0])
+                idx, tix = self.expr(n.slice.elts[1])
+                if tcnt == "Z" and tix == "VZ":      # m[arange(k), idx] : row i, column idx[i] (k = number of rows)
+                    return "(zip_with (fun (row_ : list bool) (a_ : Z) => jget false row_ a_) %s %s)" % (v, idx), "VB"
+            if t == "VPos" and not isinstance(n.slice, (ast.Tuple, ast.Slice)) and self.expr(n.slice)[1] == "VZ":
+                return "(map (fun a_ : Z => jget (0, 0) %s a_) %s)" % (v, self.expr(n.slice)[0]), "VPos"
+            if t == "VB" and u(n.slice) == "(slice(None, None, None), None)" or (t == "VB" and isinstance(n.slice, ast.Tuple) and len(n.slice.elts) == 2
+                    and isinstance(n.slice.elts[0], ast.Slice) and isinstance(n.slice.elts[1], ast.Constant) and n.slice.elts[1].value is None):
+                return v, "VBcol"          # v[:, None] : broadcasts each entry over the row of the other operand
+            if t == "VPos" and isinstance(n.slice, ast.Tuple) and len(n.slice.elts) == 2 and isinstance(n.slice.elts[0], ast.Slice) \
+                    and isinstance(n.slice.elts[1], ast.Constant) and n.slice.elts[1].value in (0, 1):
+                return "(map %s %s)" % ("fst" if n.slice.elts[1].value == 0 else "snd", v), ("VZof", v, n.slice.elts[1].value)
             if t == "MB" and isinstance(n.slice, ast.Tuple) and len(n.slice.elts) == 2 and isinstance(n.slice.elts[1], ast.Slice) \
                     and n.slice.elts[1].lower is None and n.slice.elts[1].upper is None and n.slice.elts[1].step is None:
                 i, ti = self.expr(n.slice.elts[0])
@@ -198,6 +218,10 @@ class Tr:
                 (r, tr), (c, tc) = self.expr(n.slice.elts[0]), self.expr(n.slice.elts[1])
                 if tr == tc == "Z":
                     return "(gget false %s %s %s)" % (v, r, c), "B"
+            if t == "MZ" and isinstance(n.slice, ast.Tuple) and len(n.slice.elts) == 2:
+                (r, tr), (c, tc) = self.expr(n.slice.elts[0]), self.expr(n.slice.elts[1])
+                if tr == tc == "Z":
+                    return "(gget 0 %s %s %s)" % (v, r, c), "Z"
             raise Unsupported("subscript " + u(n))
         if isinstance(n, ast.Lambda):
             a = n.args
@@ -253,6 +277,8 @@ class Tr:
             h, th = self.expr(n.args[2])
             if tc != "B" or tg[0] != "fn" or th[0] != "fn":
                 raise Unsupported("cond types")
+            if "TS" in (tg[2], th[2]) and all(isinstance(x, ast.Lambda) for x in n.args[1:3]):
+                return "(if %s then %s %s else %s %s)" % (c, g, " ".join(v for v, _ in xs), h, " ".join(v for v, _ in xs)), "TS"
             if "TS" in (tg[2], th[2]):      # termination / transition (reward, observation): the timestep model carries no observation
                 r = [v for v, t in xs if t == "Z"]
                 if len(r) != 1 or len(xs) != 2 or tg[2] != th[2]:
@@ -297,6 +323,11 @@ class Tr:
             arr, ta = self.expr(n.func.value.value.value)
             idx = n.func.value.slice
             val, tv = self.expr(n.args[0])
+            if ta == "MZ" and tv == "Z" and isinstance(idx, ast.Tuple) and len(idx.elts) == 2:
+                (i0, t0), (i1, t1) = self.expr(idx.elts[0]), self.expr(idx.elts[1])
+                if isinstance(t0, tuple) and isinstance(t1, tuple) and t0[0] == t1[0] == "VZof" and t0[1] == t1[1] and (t0[2], t1[2]) == (0, 1):
+                    # g.at[ps[:, 0], ps[:, 1]].set(v): one scatter per position (same value, so the order is irrelevant)
+                    return "(fold_left (fun (g_ : list (list Z)) (p_ : Z * Z) => gset g_ (fst p_) (snd p_) %s) %s %s)" % (val, t0[1], arr), "MZ"
             if ta == "VZ" and tv == "Z" and not isinstance(idx, (ast.Tuple, ast.Call)):
                 i, ti = self.expr(idx)
                 if ti == "Z":
@@ -337,6 +368,24 @@ class Tr:
                 return "(%s && %s)" % (a, b), "B"
             if ta == tb == "MB":
                 return "(m_and %s %s)" % (a, b), "MB"
+        if isinstance(n.func, ast.Attribute) and n.func.attr in ("all", "any") and not n.args and not kws:
+            v, t = self.expr(n.func.value)
+            if t == "VB":
+                return "(%s (fun b : bool => b) %s)" % ("forallb" if n.func.attr == "all" else "existsb", v), "B"
+            if t == "MB":
+                return ("(m_all %s)" % v) if n.func.attr == "all" else ("(existsb (existsb (fun b : bool => b)) %s)" % v), "B"
+        if f == "jnp.sum" and len(n.args) == 1 and [(k, u(x)) for k, x in kws.items()] == [("dtype", "float")]:
+            v, t = self.expr(n.args[0])
+            if t == "MB":
+                return "(m_sum %s)" % v, "Z"
+        if f.startswith("jax.vmap(jax.vmap(") and isinstance(n.func, ast.Call) and len(n.func.args) == 1 and isinstance(n.func.args[0], ast.Call) \
+                and [(k.arg, u(k.value)) for k in n.func.keywords] == [("in_axes", "(0, None)")] \
+                and [(k.arg, u(k.value)) for k in n.func.args[0].keywords] == [("in_axes", "(None, 0)")] and len(n.args) == 2 and not kws:
+            g, tg = self.expr(n.func.args[0].args[0])
+            (xs, tx), (ys, ty) = self.expr(n.args[0]), self.expr(n.args[1])
+            if tg[0] == "fn" and tg[1] == ["Pos", "Pos"] and tg[2] == "B" and tx == ty == "VPos":
+                return "(map (fun x_ : Z * Z => map (%s x_) %s) %s)" % (g, ys, xs), "MB"
+            raise Unsupported("nested vmap types")
         if f == "jnp.logical_not" and len(n.args) == 1 and not kws:
             v, t = self.expr(n.args[0])
             if t == "B":
@@ -349,6 +398,8 @@ class Tr:
             (c, tc), (a, ta), (b, tb) = [self.expr(x) for x in n.args]
             if tc == "B" and ta == tb == "Z":
                 return "(if %s then %s else %s)" % (c, a, b), "Z"
+            if tc == "VBcol" and ta == "VPos" and tb == "Z" and b == "(0)":
+                return "(zip_with (fun (c_ : bool) (m_ : Z * Z) => if c_ then m_ else (0, 0)) %s %s)" % (c, a), "VPos"
             if tc == "VB" and ta == "VZ" and tb == "Z":
                 return "(zip_with (fun (c_ : bool) (x_ : Z) => if c_ then x_ else %s) %s %s)" % (b, c, a), "VZ"
             raise Unsupported("jnp.where on %s, %s, %s" % (tc, ta, tb))
